@@ -114,6 +114,16 @@ func (x *Exec) stdlib(fr *Frame, ins ssa.Instruction, fn *ssa.Function, args []V
 		x.assume(ts.And(x.w.bvsle(ts.BV(0, 64), r), x.w.bvult(r, x.w.existingLenBound())))
 		x.availLens = append(x.availLens, r)
 		return r, true
+	case "runtime.Stack":
+		// writes a stack trace into buf and returns the number of bytes written
+		buf := args[0].(*Term)
+		cn, cs := "E_"+sanitize(string(SBV(8))), SArr(SInt, SArr(SBV(64), SBV(8)))
+		h := x.comp(st, cn, cs)
+		st.heap[cn] = ts.Store(h, x.w.sArr(buf), x.w.Fresh("stackrow", SArr(SBV(64), SBV(8))))
+		x.note("trusted: runtime.Stack writes only into its buffer and returns 0 <= n <= len(buf)")
+		n := x.w.Fresh("stackn", SBV(64))
+		x.assume(ts.And(x.w.bvsle(ts.BV(0, 64), n), x.w.bvsle(n, x.w.sLen(buf))))
+		return n, true
 	case "io.ReadFull":
 		// reads into buf (contents unspecified); err == nil implies n == len(buf)
 		buf := args[1].(*Term)
